@@ -880,3 +880,51 @@ def last_row(ctx):
                    '(filters, chunked integration) continue from a stale state/time'
                    % (mname, norm_text(sl), attr, what))
     ctx.floor('LAST-ROW', n, 2, 'accessors')
+
+
+def wa_forward(ctx):
+    """The altitude mode chosen by the caller reaches every component: a function that has a
+    `with_altitude` parameter passes it on to every callee / constructor that has one (otherwise
+    the component silently runs in its default 3-D mode: the integrator keeps integrating the
+    vertical channel, the error model keeps its vertical states)."""
+    ctx.rule('WA-FORWARD', 'every function with a with_altitude parameter forwards it to each callee '
+             'or constructor that accepts one')
+    from ..model import FunctionInfo, ClassInfo
+    repo = ctx.repo
+    n = 0
+    for f in repo.all_functions():
+        if 'with_altitude' not in f.params + f.kwonly:
+            continue
+        for call in ast.walk(f.node):
+            if not isinstance(call, ast.Call):
+                continue
+            q = f.module.resolve(call.func, f.local_names())
+            tgt = repo.lookup(q) if q and q.startswith('pyins') else None
+            h = None
+            if isinstance(tgt, ClassInfo):
+                h = repo.class_member(tgt, '__init__')
+                params = h.params[1:] if isinstance(h, FunctionInfo) else []
+            elif isinstance(tgt, FunctionInfo):
+                h = tgt
+                params = h.params
+            if not isinstance(h, FunctionInfo) or 'with_altitude' not in params + h.kwonly:
+                continue
+            got = None
+            if 'with_altitude' in params:
+                i = params.index('with_altitude')
+                if i < len(call.args):
+                    got = call.args[i]
+            for kw in call.keywords:
+                if kw.arg == 'with_altitude':
+                    got = kw.value
+            n += 1
+            ok = isinstance(got, ast.Name) and got.id == 'with_altitude'
+            ctx.ob('WA-FORWARD', ok, None, '%s forwards with_altitude to %s'
+                   % (f.qualname, norm_text(call.func)), f=f, node=call,
+                   key='%s->%s' % (f.qualname, norm_text(call.func)),
+                   why='%s calls `%s` %s: the component runs in its default mode (with altitude) '
+                       'whatever mode the caller asked for'
+                       % (f.qualname, norm_text(call)[:70],
+                          'without the with_altitude argument' if got is None
+                          else 'with with_altitude=%s' % norm_text(got)))
+    ctx.floor('WA-FORWARD', n, 4, 'forwarding sites')
